@@ -8,7 +8,7 @@ import traceback
 import z3
 
 from engine.symreal.core import uf_axioms, qval
-from engine.symreal.zutil import zeval
+from engine.symreal.zutil import zeval, zmag
 
 from engine.symreal.core import HarnessError
 from .common import REPO, Part, Q, approx_equal, dyadic_box, free_vars, solve, write_replay
@@ -82,6 +82,7 @@ def prove_equal(
     all_vars=None,
     witness_constraints=(),
     seeded_envs=None,
+    big_box=True,
 ):
     """Returns 'proved' | 'violation' | 'inconclusive'."""
     if impl is spec or impl.eq(spec):
@@ -146,6 +147,46 @@ def prove_equal(
             path = write_replay(pid, {"obligation": name, "key": key or name, "candidate_kind": kind, "solver_status": q.status, "inputs": env, "result": r, "info": info or {}})
             part.violation(key or name, f"{name}: real code differs from specification at {_short(env)} -> {_short(r)}", path)
             return "violation"
+    if q.status == "sat" and big_box:
+        # The difference may be invisible at O(1) inputs (a coefficient of 3e-13 dropped, a constant snapped to the
+        # nearest integer): ask for a robust witness in a much larger box.  There cancellation can make two float
+        # evaluations of the same real expression differ, so the replay is judged against the magnitude bound of the
+        # specification term at that point (rounding error is a small multiple of eps * zmag), not against its value.
+        rv = {n: v for n, v in vars_.items() if z3.is_real(v) and not n.startswith(("pn_", "sn_", "P_", "P2_"))}
+        boxc = []
+        for n, v in vars_.items():
+            if z3.is_real(v):
+                lim = 2 ** 20 if n in rv else 4
+                boxc += [v >= -lim, v <= lim]
+        gridc = dyadic_box(rv, -(2 ** 20), 2 ** 20, 1)
+        q5 = solve(list(assumes) + ax + list(witness_constraints) + boxc + gridc + [_absdiff_gt(impl, spec, 1e-3)], min(timeout_ms, 10000), name + "/robust-large")
+        if q5.status == "sat":
+            env = env_from_model(q5.model, vars_)
+            env_in = {k_: v_ for k_, v_ in env.items() if k_ in all_vars} if all_vars else env
+            ok_a = True
+            for a in assumes:
+                try:
+                    if not zeval(a, env_in):
+                        ok_a = False
+                        break
+                except Exception:
+                    continue
+            if ok_a:
+                part.d["witnesses"] += 1
+                try:
+                    r = replay(env)
+                except Exception:
+                    r = None
+                if r is not None and not isinstance(r.get("impl"), (list, tuple)):
+                    try:
+                        mag = zmag(spec, env_in)
+                        fi, fs = float(r["impl"]), float(r["spec"])
+                        if math.isfinite(mag) and math.isfinite(fs) and (not math.isfinite(fi) or abs(fi - fs) > 1e-7 * (mag + 1e-300)):
+                            path = write_replay(pid, {"obligation": name, "key": key or name, "candidate_kind": "robust-large", "solver_status": q.status, "inputs": env, "result": r, "magnitude_bound": mag, "info": info or {}})
+                            part.violation(key or name, f"{name}: real code differs from specification at {_short(env)} -> {_short(r)} (magnitude bound of the specification there: {mag:.3g})", path)
+                            return "violation"
+                    except (KeyError, NotImplementedError, OverflowError, ZeroDivisionError):
+                        pass
     if q.status == "sat":
         # exact equality fails only at rounding level (e.g. a rational constant printed as a double)? Then the
         # weaker claim "equal within 1e-9 relative on a box" is still decidable - and is what 'up to rounding' means.
